@@ -146,6 +146,8 @@ class StateMachine(metaclass=StateMachineMetaclass):
 
         self._register_callbacks([])
         self.add_listener(*listeners.keys())
+        # the listeners were attached after `_register_callbacks` decided between sync and async
+        self._callbacks.async_or_sync()
         self._engine = self._get_engine(rtc)
         self._engine.start()
 
